@@ -286,6 +286,12 @@ class C13(C12):
             w = global_labels_across_patches(rnd3)
             if w:
                 bads.append(dict(what=w, input="global_labels_across_patches()", finding=None))
+        from harness import ctxlevel
+        for _ in range({"quick": 150, "thorough": 1500}["thorough" if boosted else tier]):
+            extra += 1
+            w = ctxlevel.extern_symbols(rnd3)
+            if w:
+                bads.append(dict(what=w, input="ctxlevel.extern_symbols()", finding=None))
         bads = [b for b in bads if b["finding"] is None][:10] + [b for b in bads if b["finding"]][:2]
         return dict(evaluations=len(pairs) + extra, violations=bads, samples=[{"oracle": "symbol identity and uniqueness; chunked == whole; two copies with different suffixes"}])
 
